@@ -28,6 +28,17 @@ Line protocol (stateful; one answer per line):
         -> state mem=<v:f:w;...>     (the S/T/F/C/X/result lines then drive this executor)
   ecall <tasks>                   next execute() on the same executor: threads keep the objects as the previous call
                                   left them, forked workers start again from the objects of the main process
+  ainit <F|C> <nProcs> <h> <coef rows r,r|r,r> <c0 rats> <q rats>
+        ONE parallel gradient approximator (Model §7: FirstOrderFD / CenteredDifferences on `vecF`), default step h,
+        `_function_kwargs` = defaults -> ok
+  agrad <x rats> <x_indices nats|[]> <step|_> <scale> <shift>     f_gradient(x, step=, x_indices=, scale=, shift=)
+  aopt <x rats> <scale> <shift>                                  compute_optimal_step(x, scale=, shift=)
+        -> evals=<values of task 0|task 1|...> res=<row|row|...>   (the values the pool evaluates with the keyword
+        arguments the OBJECT holds; Jacobian rows, or f(x) then the second differences per component)
+  cmerge <all outputs nats> <requested outputs nats> <requested inputs nats> <disc;disc;...>
+        disc = <output names nats>@<values rats>@<slot>, slot = F (failed) | - (empty dict) | o>i=c,i=c/o>i=c (an output with no block: `o>-`)
+        assembly of the data and of the Jacobian of a parallel chain (Model §8)
+        -> data=<o:v;...> blocks=<o/i:c;...>
 state = p=.. qi=.. w=.. qo=.. ord=.. cb=.. n=.. stop=.. last=.. sent=.. col=..
 -/
 
@@ -41,6 +52,10 @@ structure DSt where
   enp : Nat := 1
   /-- The objects of the main process. -/
   emain : List ObjSt := []
+  /-- The gradient approximator object (Model §7). -/
+  acfg : Option (ACfg (Rat × Rat) APoint (List Rat) (List (List Rat))) := none
+  anp : Nat := 2
+  ast : AState (Rat × Rat) (List (List Rat)) := { kwargs := (1, 0), step := [[0]] }
 
 abbrev St := DSt
 
@@ -164,6 +179,55 @@ def showJCache (c : JCache Rat Rat Rat) : String :=
 def showDb (db : Db Rat Rat) : String :=
   showList (db.map (fun e => showRat e.1 ++ ":" ++ showORat e.2)) ";"
 
+def parseRows (s : String) : Option (List (List Rat)) := (s.splitOn "|").mapM parseRatList?
+
+def showRows (m : List (List Rat)) : String := "|".intercalate (m.map showRatList)
+
+def doAOp (st : St) (op : AOp (Rat × Rat) APoint) : St × String :=
+  match st.acfg with
+  | none => (st, "no-init")
+  | some c =>
+    let evals := parEvals c st.anp st.ast op
+    let (s', r) := parStep c st.anp st.ast op
+    ({ st with ast := s' }, s!"evals={showRows (evals.map (fun v => v.getD []))} res={showRows r}")
+
+def parsePair (t : String) : Option (Nat × Rat) :=
+  match t.splitOn "=" with
+  | [i, c] => match i.toNat?, parseRat? c with
+    | some i, some c => some (i, c)
+    | _, _ => none
+  | _ => none
+
+def assocGet {V : Type} (l : List (Nat × V)) (k : Nat) : Option V :=
+  (List.find? (fun e => e.1 == k) l).map (fun e => e.2)
+
+/-- `i=c,i=c` or `-`. -/
+def parseBlocks (s : String) : Option (Dict Rat) :=
+  if s = "-" then some (fun _ => none) else
+  ((s.splitOn ",").mapM parsePair).map (fun l => assocGet l)
+
+def parseEntry (t : String) : Option (Nat × Dict Rat) :=
+  match t.splitOn ">" with
+  | [o, b] => match o.toNat?, parseBlocks b with
+    | some o, some b => some (o, b)
+    | _, _ => none
+  | _ => none
+
+/-- `F` | `-` | `o>blocks/o>blocks`. -/
+def parseSlot (s : String) : Option (Option (Dict (Dict Rat))) :=
+  if s = "F" then some none
+  else if s = "-" then some (some (fun _ => none))
+  else ((s.splitOn "/").mapM parseEntry).map (fun l => some (assocGet l))
+
+def parseDiscLin (s : String) : Option (DiscLin Rat Rat) :=
+  match s.splitOn "@" with
+  | [outs, vals, slot] =>
+    match parseNatList? outs, parseRatList? vals, parseSlot slot with
+    | some outs, some vals, some slot =>
+      some { outputs := outs, val := fun o => vals.getD (outs.idxOf o) 0, jac := slot }
+    | _, _, _ => none
+  | _ => none
+
 def answer (st : St) (line : String) : St × String :=
   match tokens line with
   | ["init", np, ins, cs] =>
@@ -184,6 +248,28 @@ def answer (st : St) (line : String) : St × String :=
         startEff st st.ethr st.enp (if st.ethr then s.mem else st.emain) tasks
       else (st, "disabled")
     | _, _ => (st, "bad-op")
+  | ["ainit", m, np, h, coef, c0, q] =>
+    match np.toNat?, parseRat? h, parseRows coef, parseRatList? c0, parseRatList? q with
+    | some np, some h, some coef, some c0, some q =>
+      ({ st with acfg := some (fdCfg (m == "C") coef c0 q), anp := np, ast := { kwargs := (1, 0), step := [[h]] } }, "ok")
+    | _, _, _, _, _ => (st, "bad-init")
+  | ["agrad", x, idx, step, sc, sh] =>
+    match parseRatList? x, parseNatList? idx, parseORat? step, parseRat? sc, parseRat? sh with
+    | some x, some idx, some step, some sc, some sh => doAOp st (.grad { x := x, idx := idx, step := step } (sc, sh))
+    | _, _, _, _, _ => (st, "bad-op")
+  | ["aopt", x, sc, sh] =>
+    match parseRatList? x, parseRat? sc, parseRat? sh with
+    | some x, some sc, some sh => doAOp st (.optStep { x := x } (sc, sh))
+    | _, _, _ => (st, "bad-op")
+  | ["cmerge", allOuts, reqOuts, reqIns, discs] =>
+    match parseNatList? allOuts, parseNatList? reqOuts, parseNatList? reqIns, (discs.splitOn ";").mapM parseDiscLin with
+    | some allOuts, some reqOuts, some reqIns, some ds =>
+      let data := mergeData ds
+      let jac := mergeJac ds
+      let d := allOuts.map (fun o => s!"{o}:{showORat (data o)}")
+      let b := reqOuts.flatMap (fun o => reqIns.map (fun i => s!"{o}/{i}:{showRat (chainBlock jac o i)}"))
+      (st, s!"data={showList d ";"} blocks={showList b ";"}")
+    | _, _, _, _ => (st, "bad-op")
   | ["S"] => doOp st .submit
   | ["T", w] => match w.toNat? with | some w => doOp st (.take w) | none => (st, "bad-op")
   | ["F", w] => match w.toNat? with | some w => doOp st (.finish w) | none => (st, "bad-op")
